@@ -71,6 +71,27 @@ type c36Cfg struct {
 	SubRefresh string `json:"sub_refresh"`
 	SubExtend  int    `json:"sub_extend"`
 	SrvSubs    bool   `json:"srv_subs"` // subscriptions of this case are server-side (Client.Subscribe)
+	PosDelay   int    `json:"pos_delay"` // ClientChannelPositionCheckDelay, 0 = periodic position check off
+}
+
+// broker whose stream top is scripted per channel (the periodic position check reads it through
+// Node.History); everything else is the memory broker
+type c36Broker struct {
+	*MemoryBroker
+	mu  sync.Mutex
+	off map[string]uint64
+}
+
+func (b *c36Broker) History(ch string, _ HistoryOptions) ([]*Publication, StreamPosition, error) {
+	b.mu.Lock()
+	defer b.mu.Unlock()
+	return nil, StreamPosition{Offset: b.off[ch], Epoch: "c36"}, nil
+}
+
+func (b *c36Broker) top(ch string) uint64 {
+	b.mu.Lock()
+	defer b.mu.Unlock()
+	return b.off[ch]
 }
 
 type c36Label struct {
@@ -83,6 +104,8 @@ type c36Label struct {
 	Chan    int    `json:"chan,omitempty"`
 	Server  bool   `json:"server,omitempty"`
 	Expired bool   `json:"expired,omitempty"`
+	Pos     bool   `json:"pos,omitempty"` // subscribe: positioned
+	Bad     bool   `json:"bad,omitempty"` // stream: the stream top moves away from the client's position
 }
 
 func (l c36Label) coq() string {
@@ -94,7 +117,9 @@ func (l c36Label) coq() string {
 	case "connect":
 		return vApp("LConnect", vN(uint64(l.E)), vBool(l.CSR), vN(uint64(l.FPres)), vN(uint64(l.FPing)))
 	case "subscribe":
-		return vApp("LSubscribe", vApp("mkSub", vN(uint64(l.Chan)), vN(uint64(l.E)), vBool(l.CSR), vBool(l.Server)))
+		return vApp("LSubscribe", vApp("mkSub", vN(uint64(l.Chan)), vN(uint64(l.E)), vBool(l.CSR), vBool(l.Server), vBool(l.Pos), vN(0), vBool(false)))
+	case "stream":
+		return vApp("LStream", vN(uint64(l.Chan)), vBool(l.Bad))
 	case "pong":
 		return "LPong"
 	case "refresh":
@@ -166,6 +191,8 @@ type c36H struct {
 	conn        c36Label
 	unsubDeadline time.Time
 	asked       []c36Ev
+	broker      *c36Broker
+	positioned  []int // channels subscribed with positioning (generator)
 	wantUnsub   int // unsubscribe pushes the current step must still deliver (they are written by goroutines)
 }
 
@@ -371,18 +398,24 @@ func c36New(t *testing.T, cfg c36Cfg) *c36H {
 	node, err := New(Config{LogLevel: LogLevelNone, ClientTimerScheduler: h.sched,
 		ClientStaleCloseDelay: time.Duration(cfg.Stale) * time.Second, ClientExpiredCloseDelay: time.Duration(cfg.ExpDelay) * time.Second,
 		ClientExpiredSubCloseDelay: time.Duration(cfg.SubDelay) * time.Second, ClientPresenceUpdateInterval: time.Duration(cfg.Presence) * time.Second,
-		ClientChannelPositionCheckDelay: time.Hour})
+		ClientChannelPositionCheckDelay: sec(cfg.PosDelay)})
 	if err != nil {
 		t.Fatal(err)
 	}
 	h.node = node
+	mb, err := NewMemoryBroker(node, MemoryBrokerConfig{})
+	if err != nil {
+		t.Fatal(err)
+	}
+	h.broker = &c36Broker{MemoryBroker: mb, off: map[string]uint64{}}
+	node.SetBroker(h.broker)
 	node.OnConnecting(func(_ context.Context, _ ConnectEvent) (ConnectReply, error) {
 		return ConnectReply{Credentials: &Credentials{UserID: "u", ExpireAt: h.abs(h.conn.E)}, ClientSideRefresh: h.conn.CSR}, nil
 	})
 	node.OnConnect(func(c *Client) {
 		c.OnSubscribe(func(e SubscribeEvent, cb SubscribeCallback) {
 			sp := h.subSpec[e.Channel]
-			cb(SubscribeReply{Options: SubscribeOptions{ExpireAt: h.abs(sp.E)}, ClientSideRefresh: sp.CSR}, nil)
+			cb(SubscribeReply{Options: SubscribeOptions{ExpireAt: h.abs(sp.E), EnablePositioning: sp.Pos}, ClientSideRefresh: sp.CSR}, nil)
 		})
 		if cfg.Refresh != "none" || h.conn.CSR {
 			c.OnRefresh(func(e RefreshEvent, cb RefreshCallback) {
@@ -451,8 +484,21 @@ func (h *c36H) command(cmd *protocol.Command) {
 	}
 }
 
+// align keeps an operation that converts between absolute unix seconds and durations away from a
+// second boundary of the real clock (the driver computes ExpireAt from time.Now().Unix(), the code
+// subtracts its own time.Now().Unix() a moment later: a boundary in between shifts a deadline by 1 s)
+func c36Align() {
+	if ns := time.Now().Nanosecond(); ns > 900_000_000 {
+		time.Sleep(time.Duration(1_000_000_000-ns) + time.Millisecond)
+	}
+}
+
 func (h *c36H) apply(l c36Label) {
 	c := h.client
+	switch l.Kind {
+	case "connect", "subscribe", "refresh", "srvrefresh", "subrefresh", "fire":
+		c36Align()
+	}
 	switch l.Kind {
 	case "advance":
 		h.advance(l.D)
@@ -481,13 +527,26 @@ func (h *c36H) apply(l c36Label) {
 		name := c36ChanName(l.Chan)
 		h.subSpec[name] = l
 		if l.Server {
-			if err := c.Subscribe(name, WithExpireAt(h.abs(l.E))); err != nil {
+			if err := c.Subscribe(name, WithExpireAt(h.abs(l.E)), WithPositioning(l.Pos)); err != nil {
 				h.t.Fatalf("server subscribe: %v", err)
 			}
 		} else {
 			h.cmdID++
 			h.command(&protocol.Command{Id: h.cmdID, Subscribe: &protocol.SubscribeRequest{Channel: name}})
 		}
+	case "stream":
+		// the client's position of a channel is the top at subscribe time (no publications are delivered)
+		name := c36ChanName(l.Chan)
+		c.mu.Lock()
+		pos := c.channels[name].streamPosition.Offset
+		c.mu.Unlock()
+		h.broker.mu.Lock()
+		if l.Bad {
+			h.broker.off[name] = pos + 1
+		} else {
+			h.broker.off[name] = pos
+		}
+		h.broker.mu.Unlock()
 	case "pong":
 		h.command(&protocol.Command{})
 	case "refresh":
@@ -536,6 +595,14 @@ func (h *c36H) apply(l c36Label) {
 				if ctx.expireAt > 0 && time.Now().Unix() > ctx.expireAt+int64(h.cfg.SubDelay) &&
 					(channelHasFlag(ctx.flags, flagClientSideRefresh) || !extends) {
 					want++
+				}
+			}
+			if h.cfg.PosDelay > 0 {
+				for ch, ctx := range c.channels {
+					if channelHasFlag(ctx.flags, flagPositioning) && time.Now().Unix()-ctx.positionCheckTime > int64(h.cfg.PosDelay) &&
+						h.broker.top(ch) != ctx.streamPosition.Offset {
+						want++
+					}
 				}
 			}
 			before := len(c.channels)
@@ -617,6 +684,9 @@ func c36Gen(r *rand.Rand, h *c36H, step int, subs map[int]bool) *c36Label {
 	case due && x < 50:
 		return &c36Label{Kind: "fire"}
 	case x < 62:
+		if x >= 52 && len(h.positioned) > 0 {
+			return &c36Label{Kind: "stream", Chan: h.positioned[r.Intn(len(h.positioned))], Bad: r.Intn(3) != 0}
+		}
 		return &c36Label{Kind: "advance", D: 10 * (1 + r.Intn(3))}
 	case x < 72:
 		if pingOut && r.Intn(4) != 0 || r.Intn(12) == 0 { // mostly answers to a ping, rarely unsolicited
@@ -629,6 +699,11 @@ func c36Gen(r *rand.Rand, h *c36H, step int, subs map[int]bool) *c36Label {
 			return &c36Label{Kind: "advance", D: 10}
 		}
 		if subs[n] {
+			for _, p := range h.positioned {
+				if p == n { // keep positioned subscriptions without expiry (see the subscribe branch)
+					return &c36Label{Kind: "advance", D: 10}
+				}
+			}
 			return &c36Label{Kind: "subrefresh", Chan: n, E: []int{0, future(), future(), (vnow / 10) * 10}[r.Intn(4)]}
 		}
 		subs[n] = true
@@ -639,20 +714,38 @@ func c36Gen(r *rand.Rand, h *c36H, step int, subs map[int]bool) *c36Label {
 				e = (vnow/10 + 1 + r.Intn(2)) * 10
 			}
 		}
+		pos := h.cfg.PosDelay > 0 && r.Intn(3) != 0
 		if h.cfg.SrvSubs {
-			// an expired server-side subscription closes the connection from a goroutine while the tick
-			// goes on with the other channels: keep a single expiring one when nothing extends it, so
-			// that what the tick still does after starting the close does not matter
-			if h.cfg.SubRefresh != "extend" && h.cfg.SubRefresh != "forever" {
+			// A close started by the tick for a server-side subscription (expired: 3006 from a goroutine,
+			// invalid position: 3010 and the loop ends) makes what the tick does for the other channels
+			// depend on the map order.  So a case uses either positions or expiries (the first subscribe
+			// decides), and when nothing extends expiries a single subscription carries one.
+			if !subs[-2] && !subs[-3] {
+				if pos {
+					subs[-2] = true
+				} else {
+					subs[-3] = true
+				}
+			}
+			pos = pos && subs[-2]
+			if subs[-2] {
+				e = 0
+			} else if h.cfg.SubRefresh != "extend" && h.cfg.SubRefresh != "forever" {
 				if subs[-1] {
 					e = 0
 				} else if e != 0 {
 					subs[-1] = true
 				}
 			}
-			return &c36Label{Kind: "subscribe", Chan: n, E: e, CSR: false, Server: true}
 		}
-		return &c36Label{Kind: "subscribe", Chan: n, E: e, CSR: r.Intn(3) != 0, Server: false}
+		if pos {
+			e = 0 // a subscription both expired and at an invalid position would be unsubscribed twice, racing
+			h.positioned = append(h.positioned, n)
+		}
+		if h.cfg.SrvSubs {
+			return &c36Label{Kind: "subscribe", Chan: n, E: e, CSR: false, Server: true, Pos: pos}
+		}
+		return &c36Label{Kind: "subscribe", Chan: n, E: e, CSR: r.Intn(3) != 0, Server: false, Pos: pos}
 	case x < 88:
 		if !h.conn.CSR && r.Intn(6) != 0 { // a refresh command without client-side refresh is a bad request
 			return &c36Label{Kind: "advance", D: 10}
@@ -701,6 +794,24 @@ func TestVerifC36(t *testing.T) {
 		addSub(mod, c36Label{Kind: "subscribe", Chan: 1, E: 10}, c36Label{Kind: "subscribe", Chan: 2, E: 10, CSR: true}, c36Label{Kind: "subscribe", Chan: 3, E: 90})
 		addSub(mod, c36Label{Kind: "subscribe", Chan: 1, E: 10, Server: true}, c36Label{Kind: "subscribe", Chan: 2, E: 90, Server: true})
 	}
+	// periodic position check
+	posMod := func(c *c36Cfg) { c.PosDelay, c.Pong = 20, 0 }
+	addSub(posMod, c36Label{Kind: "subscribe", Chan: 1, Pos: true}, c36Label{Kind: "subscribe", Chan: 2, Pos: true}, c36Label{Kind: "subscribe", Chan: 3}, c36Label{Kind: "stream", Chan: 1, Bad: true})
+	addSub(posMod, c36Label{Kind: "subscribe", Chan: 1, Pos: true, Server: true}, c36Label{Kind: "subscribe", Chan: 2, Server: true}, c36Label{Kind: "stream", Chan: 1, Bad: true})
+	// valid at the first check (stamped), the stream moves afterwards: found only once the delay has passed again
+	corpusCfg[len(corpus)] = posMod
+	corpus = append(corpus, []c36Label{{Kind: "advance", D: 5}, {Kind: "connect", FPres: 13, FPing: 10}, {Kind: "subscribe", Chan: 1, Pos: true},
+		{Kind: "advance", D: 40}, {Kind: "fire"}, {Kind: "fire"}, {Kind: "fire"}, {Kind: "stream", Chan: 1, Bad: true}, {Kind: "advance", D: 20}, {Kind: "fire"}, {Kind: "fire"}, {Kind: "fire"},
+		{Kind: "advance", D: 20}, {Kind: "fire"}, {Kind: "fire"}, {Kind: "fire"}, {Kind: "advance", D: 20}, {Kind: "fire"}, {Kind: "fire"}, {Kind: "fire"}})
+	// ... and a tick in between, less than the delay after the stamp, must leave it alone
+	corpusCfg[len(corpus)] = func(c *c36Cfg) { c.PosDelay, c.Pong = 30, 0 }
+	corpus = append(corpus, []c36Label{{Kind: "advance", D: 5}, {Kind: "connect", FPres: 13, FPing: 10}, {Kind: "subscribe", Chan: 1, Pos: true},
+		{Kind: "advance", D: 40}, {Kind: "fire"}, {Kind: "fire"}, {Kind: "stream", Chan: 1, Bad: true}, {Kind: "advance", D: 25}, {Kind: "fire"}, {Kind: "fire"},
+		{Kind: "advance", D: 20}, {Kind: "fire"}, {Kind: "advance", D: 10}, {Kind: "fire"}, {Kind: "fire"}})
+	// the stream comes back before the check is due
+	corpusCfg[len(corpus)] = posMod
+	corpus = append(corpus, []c36Label{{Kind: "advance", D: 5}, {Kind: "connect", FPres: 13, FPing: 10}, {Kind: "subscribe", Chan: 1, Pos: true}, {Kind: "stream", Chan: 1, Bad: true},
+		{Kind: "advance", D: 20}, {Kind: "fire"}, {Kind: "fire"}, {Kind: "stream", Chan: 1}, {Kind: "advance", D: 30}, {Kind: "fire"}, {Kind: "fire"}, {Kind: "fire"}})
 	for i := 0; i < w.N; i++ {
 		if !w.Want(i) {
 			continue
@@ -730,6 +841,7 @@ func TestVerifC36(t *testing.T) {
 			cfg.SubRefresh = []string{"fail", "expired", "extend", "extend", "forever"}[r.Intn(5)]
 			cfg.SubExtend = 7 + 10*(1+r.Intn(3)) // new expiries fall on 5 (mod 10), ticks on 8
 			cfg.SrvSubs = r.Intn(4) == 0
+			cfg.PosDelay = []int{0, 20, 20, 30}[r.Intn(4)]
 		}
 		h := c36New(t, cfg)
 		var labels []c36Label
@@ -791,7 +903,7 @@ func TestVerifC36(t *testing.T) {
 			ss0 = "SForever"
 		}
 		cfgT := vApp("mkCfg", vN(uint64(cfg.Ping)), vN(uint64(cfg.Pong)), vN(uint64(cfg.Presence)), vN(uint64(cfg.Stale)),
-			vN(uint64(cfg.ExpDelay)), vN(uint64(cfg.SubDelay)), vBool(cfg.Uni), rs, ss0)
+			vN(uint64(cfg.ExpDelay)), vN(uint64(cfg.SubDelay)), vBool(cfg.Uni), rs, ss0, vN(uint64(cfg.PosDelay)))
 		ls := make([]string, len(labels))
 		os := make([]string, len(labels))
 		ss := make([]string, len(labels))
